@@ -198,7 +198,8 @@ def jobs_for(tier, sd):
     jobs = corpus.all_singles(sd)
     # emphasis: cascades (U65 dedicated SRAM with small cache, Size), wide convs with small cache, LUT chains, branches
     fams = ["chain", "chain", "wide", "lut", "branch", "mixed", "u8i16", "inplace", "lutmany", "resize", "pruned", "diamonds",
-            "stride3", "widen", "tied", "bigchain", "nncascade", "bcast"]
+            "stride3", "widen", "tied", "bigchain", "nncascade", "bcast", "memcpy", "lutcascade", "lutcascade", "s2cascade",
+            "s2cascade", "cpuouts"]
     jobs += corpus.draw(n, sd, families=fams, dedicated_bias=0.5)
     return jobs
 
